@@ -86,6 +86,8 @@ class FS:
             ch = self.objs[cur]["children"]
             if name not in ch:
                 ch[name] = ("hard", self.new_obj())
+            if ch[name][0] != "hard":
+                raise Unspecified("destination path goes THROUGH a soft or external link")
             r = self.deref(fname, ch[name])
             if r is None or r[0] != fname:
                 raise Unspecified("intermediate path goes through a dangling or external link")
